@@ -183,6 +183,18 @@ fn render_expr(e: &RawExpr, cx: &mut ExprCtx) -> String {
     }
 }
 
+/// Render one update-function expression over the given regulator names (used by `scale.rs`).
+/// Returns the text and, per regulator, whether it occurs.
+pub fn render_function(e: &RawExpr, regs: &[String], budget: &mut usize, used_fns: &mut Vec<bool>) -> (String, Vec<bool>) {
+    let mut cx = ExprCtx { regs, budget, used_fns, used_regs: vec![false; regs.len()] };
+    let text = render_expr(e, &mut cx);
+    (text, cx.used_regs)
+}
+
+pub fn raw_expr_strategy() -> BoxedStrategy<RawExpr> {
+    raw_expr()
+}
+
 fn render_atomish(e: &RawExpr, cx: &mut ExprCtx) -> String {
     match e {
         RawExpr::Bin(..) => render_expr(e, cx),
@@ -327,7 +339,7 @@ pub fn resolve_net_with(raw: &RawNet, pool: &[&str], max_bits: usize) -> String 
     lines.join("\n")
 }
 
-fn arrow(sign: u8, observable: bool) -> &'static str {
+pub fn arrow(sign: u8, observable: bool) -> &'static str {
     match (sign % 3, observable) {
         (0, true) => "-?",
         (0, false) => "-??",
